@@ -432,10 +432,12 @@ def main():
         allpairs = [(a, b) for a in rule_ops for b in rule_ops]
         texts += F.f_rule_pairs(allpairs, consts=[0, 1, F.MASK], contexts=("stack",))[::3]
         texts += F.f_rule_siblings(ops, consts=(0, 1))
+        texts += F.f_rule_triples(both)
         texts += F.f_exh(3)
     else:
         texts += F.f_exh(2)
         texts += F.f_rule_siblings(ops, consts=(0, 1))[::4]
+        texts += F.f_rule_triples(both)[::4]
     texts = list(dict.fromkeys(texts))
     max_rel = 6
     tasks = []
